@@ -13,24 +13,24 @@ ANNOS = [None, None, None, "int", "List[int]", "Optional[str]", '"Helper"', "Use
          "Generator[int, None, None]", "Union[int, str, float, bytes, bool, None, List[int]]", "Union[Dict[str, int], Dict[str, str]]",
          "Union[List[Any], List[int]]"]
 WHERE = ["top", "method", "classmethod", "staticmethod", "property", "inner", "deep", "async", "gen", "asyncmethod", "genmethod",
-         "subclassmethod", "substaticmethod", "subproperty"]
+         "subclassmethod", "substaticmethod", "subproperty", "typescoro"]
 NAMES = ["a", "b", "cc", "data", "x1", "q", "long_parameter_name_number_one", "another_rather_long_parameter_name",
          "yet_another_very_long_parameter_name_to_force_wrapping", "value_with_a_name_that_is_forty_chars_long"]
 FNAMES = ["f", "g", "compute_something_rather_long_named_function", "h",
           # long enough that `def name() -> ret` alone exceeds the 120 columns (the wrapped layout of an EMPTY parameter list)
           "a_function_name_that_is_long_enough_that_its_definition_line_does_not_fit_in_one_hundred_and_twenty_columns_even_without_parameters"]
 HEADER = ("from typing import *\nfrom fxh import Base as Helper\nUserId = NewType('UserId', int)\n\n"
-          "import functools\n\ndef wrapdeco(f):\n    @functools.wraps(f)\n    def wrapper(*a, **k):\n        return f(*a, **k)\n    return wrapper\n\n"
+          "import functools, types\n\ndef wrapdeco(f):\n    @functools.wraps(f)\n    def wrapper(*a, **k):\n        return f(*a, **k)\n    return wrapper\n\n"
           "class myclassmethod(classmethod):\n    pass\n\nclass mystaticmethod(staticmethod):\n    pass\n\nclass myproperty(property):\n    pass\n\n")
 
 
 def traced_types():
     import fxh
     return [None, int, str, List[int], Optional[float], fxh.D1, Dict[str, int], type(None), Dict[str, List[Dict[str, Optional[int]]]],
-            ("TD", ("alpha", "beta")), ("TD", ("my-key", "class"))]
+            ("TD", ("alpha", "beta")), ("TD", ("my-key", "class")), fxh.Registry]  # Registry: a class that is FALSY (its metaclass defines __len__)
 
 
-N_TRACED = 11
+N_TRACED = 12
 
 
 @st.composite
@@ -48,7 +48,7 @@ def func(draw, i):
             elif seen_def:
                 d = "None"
         ps.append(dict(name=name, kind=kd, default=d, anno=draw(st.sampled_from(ANNOS)),
-                       traced=draw(st.sampled_from([0, 0, 1, 2, 3, 4, 5, 6, 7, 8, 9, 9, 10]))))
+                       traced=draw(st.sampled_from([0, 0, 1, 2, 3, 4, 5, 6, 7, 8, 9, 9, 10, 11, 11]))))
     where = draw(st.sampled_from(WHERE))
     if ps and where in ("top", "async", "gen", "staticmethod", "substaticmethod") and draw(st.integers(0, 5)) == 0:
         # an ordinary first parameter that merely LOOKS like a receiver: a module-level function or static method has none
@@ -58,7 +58,7 @@ def func(draw, i):
                 second_trace=draw(st.sampled_from([None, None, "exception", "exception", "other-return"])),
                 wrapdeco=draw(st.sampled_from([False, False, False, True])),
                 ret_anno=draw(st.sampled_from(ANNOS)), outcome=draw(st.sampled_from(["return", "yield", "yield+return", "yield+none", "exception"])),
-                ret_traced=draw(st.sampled_from([1, 2, 3, 5, 6, 9])), yield_traced=draw(st.sampled_from([1, 2, 3, 5])),
+                ret_traced=draw(st.sampled_from([1, 2, 3, 5, 6, 9, 11])), yield_traced=draw(st.sampled_from([1, 2, 3, 5, 11])),
                 recv_anno=draw(st.sampled_from([None, None, '"K"', "Any"])),
                 is_traced=draw(st.sampled_from([True, True, True, False])), fname=draw(st.sampled_from(FNAMES)) + str(i))
 
@@ -125,7 +125,10 @@ def render(funcs, annotate_receiver=False):
         a = "async " if w in ("async", "asyncmethod") else ""
         wd = "@wrapdeco\n" if f.get("wrapdeco") and w in ("top", "async", "gen") else ""
         wdm = "    @wrapdeco\n" if f.get("wrapdeco") and w in ("method", "asyncmethod", "genmethod") else ""
-        if w in ("top", "async", "gen"):
+        if w == "typescoro":
+            # a generator-based coroutine (@types.coroutine): awaitable, but NOT a coroutine function - a plain `def` in a stub
+            top.append(f"@types.coroutine\ndef {f['fname']}({sig(f, None)}){ret}:\n    yield 1\n")
+        elif w in ("top", "async", "gen"):
             top.append(f"{wd}{a}def {f['fname']}({sig(f, None)}){ret}:\n    {body}\n")
         elif w == "inner":
             inner.append(f"        def {f['fname']}({sig(f, 'self')}){ret}:\n            pass\n")
@@ -148,7 +151,7 @@ def render(funcs, annotate_receiver=False):
 
 def live_function(mod, f):
     w = f["where"]
-    if w in ("top", "async", "gen"):
+    if w in ("top", "async", "gen", "typescoro"):
         fn = getattr(mod, f["fname"])
         return getattr(fn, "__wrapped__", fn), ()  # the tracer attributes a decorated call to the function whose code ran
     if w == "inner":
